@@ -35,6 +35,7 @@ func (c *Call) String() string {
 type Hist struct {
 	Calls []*Call
 	tick  int
+	Note  string // set by the judge: schedule-dependent observation made after the run (final value)
 }
 
 // Do records the invocation, runs f, records the response.
@@ -76,6 +77,9 @@ func (h *Hist) Outcome() string {
 	var s []string
 	for _, t := range ths {
 		s = append(s, fmt.Sprintf("t%d:%s", t, strings.Join(per[t], ",")))
+	}
+	if h.Note != "" {
+		s = append(s, h.Note)
 	}
 	return strings.Join(s, " ")
 }
@@ -204,7 +208,7 @@ func Explore(p *Program, bound, shard, nshards, maxExecs int) *Stats {
 	ex.Mk = func() (*sched.Sched, func(x *sched.Exec)) {
 		cl, h, s := Instantiate(p)
 		return s, func(x *sched.Exec) {
-			st.Outcomes[h.Outcome()]++
+			defer func() { st.Outcomes[h.Outcome()]++ }()
 			if x.Preemptions(len(x.Points)) > 0 {
 				st.Conflicts++
 			}
